@@ -223,7 +223,7 @@ package capnp
 // ---------------------------------------------------------------- segment.go (read side)
 
 //@ func Segment.slice -> r
-//@   props C01 C03 C17
+//@   props C01 C03 C17 C08
 //@   -- the caller must have bounds-checked the region (slice panics otherwise); the result is
 //@   -- exactly the sz bytes at base, as a window into the segment's array
 //@   requires s != nil && M(base)+M(sz) <= M(len(s.data)) && M(len(s.data)) <= mMaxSeg()
@@ -231,13 +231,13 @@ package capnp
 //@   ensures sameSlice(r, s.data[int(base):int(base)+int(sz)])
 
 //@ func Segment.regionInBounds -> r
-//@   props C01 C03
+//@   props C01 C03 C08
 //@   requires s != nil
 //@   ensures implies(r, M(base)+M(sz) <= M(len(s.data)))
 //@   ensures implies(M(len(s.data)) <= mMaxSeg(), r == (M(base)+M(sz) <= M(len(s.data))))
 
 //@ func Segment.readStructPtr -> st, err
-//@   props C01 C03
+//@   props C01 C03 C08
 //@   requires segOK(s)
 //@   ensures implies(err == nil, st.seg == s && wfStruct(st))
 //@   ensures implies(err == nil, M(st.off) == M(base)+8*M(sOff(val)))
@@ -248,7 +248,7 @@ package capnp
 //@           M(base)+8*M(sOff(val))+8*M(sDataWords(val))+8*M(sPtrWords(val)) <= M(len(s.data)))
 
 //@ func Segment.readListPtr -> l, err
-//@   props C01 C03
+//@   props C01 C03 C08
 //@   requires segOK(s)
 //@   ensures implies(err == nil, l.seg == s)
 //@   ensures wfcomp: implies(err == nil && sElemCode(val) == 7, wfListB(l))
@@ -280,7 +280,7 @@ package capnp
 //@   assumes implies(err == nil, segOK(r) && r.msg == s.msg)
 
 //@ func Segment.resolveFarPointer -> dst, base, resolved, err
-//@   props C01 C03
+//@   props C01 C03 C08
 //@   requires segOK(s) && M(paddr)+8 <= M(len(s.data))
 //@   old val rawPointer = rawPointer(LE64(s.data, int(paddr)))
 //@   modifies Message.segs m:map[capnproto.org/go/capnp/v3.SegmentID]*capnproto.org/go/capnp/v3.Segment
@@ -310,7 +310,7 @@ package capnp
 //@     invariant atomicDrop() == 0
 
 //@ func Segment.readPtr -> ptr, err
-//@   props C01 C02 C03
+//@   props C01 C02 C03 C08
 //@   requires segOK(s) && M(paddr)+8 <= M(len(s.data))
 //@   modifies Message.rlimit Message.rlimitInit Message.segs m:map[capnproto.org/go/capnp/v3.SegmentID]*capnproto.org/go/capnp/v3.Segment
 //@   ensures implies(err != nil, ptr.seg == nil)
